@@ -10,7 +10,7 @@ from .core import Violation, Reject, crash
 @st.composite
 def strategy(draw):
     spec = draw(gc.system(max_moltypes=2, max_res=5, max_total_mol=3))
-    mode = draw(st.sampled_from(["connected", "atom", "atom", "residue"]))
+    mode = draw(st.sampled_from(["connected", "atom", "atom", "residue", "group"]))
     spec = copy.deepcopy(spec)
     pristine = copy.deepcopy(spec["moltypes"])
     used = {n for n, _ in spec["molecules"]}
@@ -33,6 +33,19 @@ def strategy(draw):
                 if victim == 0:
                     mode = "connected"      # atom 0 carries the inter-residue bonds
                 spec["broken"] = {"mol": mt["name"], "residue": r, "atom": victim}
+    if mode == "group":
+        # a group of two or more atoms that hang together but not with the rest of their residue: the bond between
+        # atoms 0 and 1 is taken out of a residue in which atom 1 has further atoms bonded to it (atom 0 carries the
+        # bonds to other residues; residues with a virtual site, which is built from atoms 0 and 1, are left alone)
+        cands = [(mt, r) for mt in mts for r, res in enumerate(mt["residues"])
+                 if not res["vs"] and any(b[0] == 1 for b in res["bonds"])]
+        if not cands:
+            mode = "connected"
+        else:
+            mt, r = draw(st.sampled_from(cands))
+            res = mt["residues"][r]
+            res["bonds"] = [b for b in res["bonds"] if (b[0], b[1]) != (0, 1)]
+            spec["broken"] = {"mol": mt["name"], "residue": r, "group_from_atom": 1}
     if mode == "residue":
         cands = [mt for mt in mts if len(mt["residues"]) >= 2 and mt["shape"] != "ring"]
         if not cands:
